@@ -54,7 +54,7 @@ func scopeAlphabets() (forms, structure, core *progen.Alphabet) {
 			Heads1: append(progen.ExpandHeads([]string{"local function %N(%N)||end", "function %N(%N)||end", "do||end", "while %N do||end", "repeat||until %N",
 				"for %N = %N, 2 do||end", "for %N in %N do||end", "if %N then||end"}, scopeNames, e3),
 				progen.Head{Open: "for a, b in a do", Close: "end"}, progen.Head{Open: "for a, b in b do", Close: "end"}),
-			Heads2:   progen.ExpandHeads([]string{"if %N then|else|end"}, scopeNames, e3),
+			Heads2:   progen.ExpandHeads([]string{"if %N then|else|end", "if %N then|elseif %N then|end"}, scopeNames, e3),
 			MaxDepth: 2,
 		}
 		alphaCore = &progen.Alphabet{
